@@ -118,11 +118,13 @@ def install_rotation_oracle(F, log, optimal=False):
         key = ("orm", _key(source.points), _key(target.points), bool(allow_mirror))
         if key in c.memo:
             return c.memo[key].copy()
-        cc, ss = c.fresh_real("orm_c"), c.fresh_real("orm_s")
-        c.defined.append(cc * cc + ss * ss == 1)
+        # every rotation except the half turn, without a side constraint: c=(1-m^2)/(1+m^2), s=2m/(1+m^2)
+        m = Sym.var(c.fresh_free_real("orm_m", -4, 4))
+        den = m * m + 1
+        cc, ss = (1 - m * m) / den, (2 * m) / den
         refl = bool(SymB(c.fresh_bool("orm_refl"))) if allow_mirror else False
         e = -1 if refl else 1
-        R = np.array([[Sym.var(cc), Sym.var(ss) * (-e)], [Sym.var(ss), Sym.var(cc) * e]], dtype=object)
+        R = np.array([[cc, ss * (-e)], [ss, cc * e]], dtype=object)
         if optimal and not allow_mirror:
             # contract proved by harness c07.rotation2d(reduced): the result satisfies the closed-form
             # optimality conditions for the correlation matrix target^T source
